@@ -120,6 +120,10 @@ class MessageSerializer(object):
         if attr_val is not None:
           return MethodReturnMessage(error=attr_val)
 
+    if not hasattr(result, 'success'):
+      # A void method: no return value and no declared exception was set.
+      return MethodReturnMessage()
+
     return MethodReturnMessage(TApplicationException(
       TApplicationException.MISSING_RESULT, "%s failed: unknown result" % fn_name))
 
